@@ -69,7 +69,7 @@ def judge_module(res, tmod, m, traces, k, strategy, sname, via_cli=None):
     if se.syntax_error:
         bad("stub-does-not-parse", se.syntax_error)
         return keys, text
-    collided = {loc.split()[-1] for kind, _d, loc in se.events if kind == "typeddict-class-name-collision"}
+    collided = se.collided_closure()
     if collided:
         orig_bad = bad
 
